@@ -391,6 +391,18 @@ def _rule_R29(text, args):
     return text, n
 
 
+def _rule_R30(text, args):
+    # NAME(a, b)  for a local NAME that holds a FUNCTION POINTER  ->  vstub_call_NAME(NAME, a, b)
+    # (Verus has no function-pointer types: the pointer is an opaque value and the call a trusted stub whose effect is an
+    #  oracle; args: the local names)
+    n = 0
+    for name in args:
+        rx = re.compile(r"(?<![A-Za-z0-9_.:])" + re.escape(name) + r"\(")
+        text, k = rx.subn("vstub_call_%s(%s, " % (name, name), text)
+        n += k
+    return text, n
+
+
 def _rule_R6(text, args):
     # path normalisation for the one-file unit: args are from=to pairs (e.g. super::OptionalSpace=OptionalSpace)
     n = 0
@@ -420,7 +432,7 @@ def _rule_R16(text, args):
     return rx.subn(lambda m: 'write!(%s, "{}%s", %s)' % (m.group(1), m.group(3), m.group(2)), text)
 
 
-RULES = {"R29": _rule_R29, "R28": _rule_R28, "R27": _rule_R27, "R26": _rule_R26, "R25": _rule_R25, "R24": _rule_R24, "R23": _rule_R23, "R21": _rule_R21, "R20": _rule_R20, "R19": _rule_R19, "R18": _rule_R18, "R17": _rule_R17, "R16": _rule_R16, "R15": _rule_R15, "R6": _rule_R6, "R14": _rule_R14, "R13": _rule_R13, "R1": _rule_R1, "R4": _rule_R4, "R4rev": _rule_R4rev, "R11": _rule_R11, "R8": _rule_R8, "R7": _rule_R7,
+RULES = {"R30": _rule_R30, "R29": _rule_R29, "R28": _rule_R28, "R27": _rule_R27, "R26": _rule_R26, "R25": _rule_R25, "R24": _rule_R24, "R23": _rule_R23, "R21": _rule_R21, "R20": _rule_R20, "R19": _rule_R19, "R18": _rule_R18, "R17": _rule_R17, "R16": _rule_R16, "R15": _rule_R15, "R6": _rule_R6, "R14": _rule_R14, "R13": _rule_R13, "R1": _rule_R1, "R4": _rule_R4, "R4rev": _rule_R4rev, "R11": _rule_R11, "R8": _rule_R8, "R7": _rule_R7,
          "R9": _rule_R9, "R12": _rule_R12}
 
 
@@ -897,6 +909,10 @@ def assemble(unit_path, canary=None):
         # attributes: derive allow-list
         derive_allow = [x for x in opts.get("derive", "").split(",") if x]
         attrs = _filter_attrs(item.attrs_text, derive_allow)
+        if opts.get("addattr"):
+            # attributes that exist only for the verifier (e.g. verifier::reject_recursive_types(S)); `;` separates several
+            for a_ in opts["addattr"].split(";"):
+                attrs += "#[%s]\n" % a_
         if opts.get("addderive"):
             # derives that exist only for the verifier (e.g. vstd's `Structural`: derived == is structural equality)
             attrs += "#[derive(%s)]\n" % opts["addderive"]
